@@ -47,8 +47,11 @@ class Dm14World:
         self.sa_c = p.get("sa_c", SA_C)      # requester / server / intruder addresses are scenario data
         self.sa_s = p.get("sa_s", SA_S)
         self.sa_i = p.get("sa_i", SA_I)
-        self.cs = w.stack("C", dll="j1939-21", max_cmdt=cm[0])
-        self.ss = w.stack("S", dll="j1939-21", max_cmdt=cm[1])
+        # p["tx"] = [client, server]: time a frame write takes (in every context: a DM14/DM15 written from a receive callback
+        # blocks the receive context of that stack for that long)
+        tx = p.get("tx", [0.0, 0.0])
+        self.cs = w.stack("C", dll="j1939-21", max_cmdt=cm[0], tx_time=tx[0], tx_all_contexts=True)
+        self.ss = w.stack("S", dll="j1939-21", max_cmdt=cm[1], tx_time=tx[1], tx_all_contexts=True)
         self.cca = self.cs.add_ca("c", 0x100, self.sa_c)
         self.sca = self.ss.add_ca("s", 0x200, self.sa_s)
         self.client = j.MemoryAccess(self.cca)
